@@ -24,6 +24,9 @@ def run(chk, tier):
         fn, paths, rows = E.eval_dyn_table(chk, F, 'R07.1', cfg)
         E.counting_discipline(chk, F, 'R07.1.count', cfg, fn, rows)
         E.eval_table(chk, F, 'R07.4', cfg)
+        # R07.7 'panics naming the call': the text the mock panics with is the rendering of this call's own error
+        from props.c08 import panic_message_is_the_error
+        panic_message_is_the_error(chk, F, 'R07.7', cfg)
         # R07.2 fallback mode: set by the constructors, never written
         L.clone_and_ctor(chk, F, 'R07.2', cfg)
         acc = L.field_accesses(F, 'state::SharedState', 'fallback_mode')
